@@ -124,6 +124,9 @@ pub fn san_values() -> Vec<(String, Vec<SanSpec>)> {
         ("dns that reads as ipv4 / ipv6".into(), vec![SanSpec::Dns("127.0.0.1".into()), SanSpec::Dns("::1".into()), SanSpec::Dns("fe80::".into())]),
         ("rfc822 and uri that read as ip / dns".into(), vec![SanSpec::Email("192.0.2.7".into()), SanSpec::Uri("10.0.0.1".into()), SanSpec::Email("host.example".into()), SanSpec::Uri("::".into())]),
         ("dns that reads as rfc822 / uri".into(), vec![SanSpec::Dns("user@example.com".into()), SanSpec::Dns("https://example.com/".into()), SanSpec::Dns("*.example.com".into())]),
+        // spellings a resolver would treat alike: a name is written as given (absolute form with its final dot, a leading dot, upper case, blanks)
+        ("dns with a final dot, a leading dot, upper case, a trailing blank".into(), vec![SanSpec::Dns("crabs.example.".into()), SanSpec::Dns(".example".into()), SanSpec::Dns("HOST.Example.COM".into()), SanSpec::Dns("host.example ".into()), SanSpec::Dns(".".into())]),
+        ("rfc822 and uri with a final dot / upper case".into(), vec![SanSpec::Email("User@Example.COM.".into()), SanSpec::Uri("HTTPS://Example.COM./".into())]),
     ]
 }
 
